@@ -122,7 +122,9 @@ CHECKS = {
              "their definitions over (root tree, position); commonancestors = prefixes of the longest common prefix of "
              "all arguments; bridge to the link state: for every consistent heap the tree of a root (tree_of) has the "
              "heap's children lists and parent pointers at every position (C04_tree_of_heap/_children_agree/"
-             "_parent_agree). Tie: every shape <= 5 nodes x every node x commonancestors argument lists, AnyNode/"
+             "_parent_agree) and conversely whenever the children lists below a node spell out a tree t the unfolding "
+             "is t (C04_unfolding_of_spelled_links - the premise the harnesses establish on the live objects). "
+             "Tie: every shape <= 5 nodes x every node x commonancestors argument lists, AnyNode/"
              "NodeMixin/LightNodeMixin/SymlinkNode-mixed classes and adversarial special-method classes, a quarter of "
              "the trees reached through mutation histories before reading.",
         design="6/C04, 0", note="node = (tree, position); the heap bridge is the abstraction function of Model/Abs.v.",
